@@ -182,6 +182,8 @@ impl Converter {
 
                 self.end_scope();
 
+                self.remove_unique(unique);
+
                 Term::Lambda {
                     parameter_name: name.into(),
                     body: Rc::new(body),
@@ -246,6 +248,8 @@ impl Converter {
                 let body = self.debruijn_to_name(body)?;
 
                 self.end_scope();
+
+                self.remove_unique(unique);
 
                 Term::Lambda {
                     parameter_name: name.into(),
